@@ -32,26 +32,58 @@ theorem ancillary_sound (e : Env) (wf : e.WF) (g : Gene) (c : Cond) (x : Gene ×
     x.1 ∈ e.near g ∧ e.has x.1 x.2 = true ∧ x.2 ∈ c.profiles :=
   evalC_anc e wf g false c x hx
 
-/-- "closer than the cutoff" on a linear record, single-exon genes: `in_range` is the number of
-    bases strictly between the two genes compared with the cutoff (ring and multi-exon cases:
-    C04) -/
-theorem inRange_linear_simple (e : Env) (g h : Gene) (a b : Part)
-    (hg : e.loc g = .simple a) (hh : e.loc h = .simple b) (hc : e.circ = 0)
-    (ha : a.lo < a.hi) (hb : b.lo < b.hi) :
-    e.inRange g h = decide (lineGap a b < e.cutoff) := by
-  simp only [Env.inRange, hg, hh, hc, getDistance_simple_line a b ha hb]
+/-- "closer than the cutoff": the distance `Details.in_range` compares with the cutoff is the
+    distance of the two genes read as sets of bases — 0 if they share a base, otherwise the least
+    number of bases strictly between them, the shorter way round when a circular origin is given —
+    for every well-formed pair of gene locations, multi-exon and origin-spanning ones included
+    (C04 `distance_is_bases_between`) -/
+theorem in_range_distance_is_bases_between (lg lh : Loc) (circ : Int) (hg : lg.OK circ) (hh : lh.OK circ) :
+    IsDist circ lg lh (getDistance lg lh circ) ∧ getDistance lg lh circ = specDistFull circ lg lh :=
+  ⟨getDistance_isDist lg lh circ hg hh, getDistance_eq_specFull lg lh circ hg hh⟩
+
+/-- hence the environment the code evaluates in and the documented one coincide … -/
+theorem env_eq_spec_env (genes withHits : List Gene) (hits : Gene → List (Prof × Int)) (loc : Gene → Loc)
+    (cutoff circ : Int) (hloc : ∀ g, (loc g).OK circ) :
+    Env.ofLocs genes withHits hits loc cutoff circ = Env.ofLocsSpec genes withHits hits loc cutoff circ := by
+  simp only [Env.ofLocs, Env.ofLocsSpec]
+  congr 1
+  funext g h
+  exact getDistance_eq_specFull (loc g) (loc h) circ (hloc g) (hloc h)
+
+/-- … and the full statement of the property, from gene locations to the anchoring decision:
+    evaluated on the code's `Details`, a gene anchors the rule iff the documented formula — with
+    "in range" meaning fewer than `cutoff` bases in between — is true at it and it contributes a
+    reason profile; and the reported reasons are the documented ones -/
+theorem detect_on_locations (genes withHits : List Gene) (hits : Gene → List (Prof × Int)) (loc : Gene → Loc)
+    (cutoff circ : Int) (hloc : ∀ g, (loc g).OK circ)
+    (wf : (Env.ofLocs genes withHits hits loc cutoff circ).WF) (g : Gene) (c : Cond) (h : c.WF = true) :
+    anchors (Env.ofLocs genes withHits hits loc cutoff circ) g c
+        = specAnchors (Env.ofLocsSpec genes withHits hits loc cutoff circ) g c ∧
+    (detect (Env.ofLocs genes withHits hits loc cutoff circ) g c).reasons
+        = specReasons (Env.ofLocsSpec genes withHits hits loc cutoff circ) g c := by
+  rw [← env_eq_spec_env genes withHits hits loc cutoff circ hloc]
+  exact ⟨anchors_iff _ wf g c h, detect_reasons_eq _ g c h⟩
 
 /-! ### non-vacuity: concrete layouts meeting the hypotheses on which the interesting branches fire -/
 
 /-- three genes on a line, cutoff 10: gene 1 is 9 bases from gene 0, gene 2 exactly 10 away -/
-def exEnv (gap2 : Int) : Env where
-  genes := [0, 1, 2]
-  withHits := [0, 1, 2]
-  hits := fun g => if g = 0 then [("a", 20)] else if g = 1 then [("b", 20), ("c", 8)] else [("d", 20), ("e", 20)]
-  loc := fun g => if g = 0 then .simple ⟨100, 200, .fwd⟩ else if g = 1 then .simple ⟨209, 300, .rev⟩
-                  else .simple ⟨300 + gap2, 400 + gap2, .fwd⟩
-  cutoff := 10
-  circ := 0
+def exLoc (gap2 : Int) (g : Gene) : Loc :=
+  if g = 0 then .simple ⟨100, 200, .fwd⟩ else if g = 1 then .simple ⟨209, 300, .rev⟩
+  else .simple ⟨300 + gap2, 400 + gap2, .fwd⟩
+def exEnv (gap2 : Int) : Env :=
+  Env.ofLocs [0, 1, 2] [0, 1, 2]
+    (fun g => if g = 0 then [("a", 20)] else if g = 1 then [("b", 20), ("c", 8)] else [("d", 20), ("e", 20)])
+    (exLoc gap2) 10 0
+
+/-- the location hypothesis of `detect_on_locations` is satisfiable -/
+example : ∀ g, (exLoc 10 g).OK 0 := by
+  intro g
+  unfold exLoc
+  split
+  · exact ⟨by simp [Loc.parts], by intro p hp; simp [Loc.parts] at hp; subst hp; simp [Part.OK]⟩
+  · split
+    · exact ⟨by simp [Loc.parts], by intro p hp; simp [Loc.parts] at hp; subst hp; simp [Part.OK]⟩
+    · exact ⟨by simp [Loc.parts], by intro p hp; simp [Loc.parts] at hp; subst hp; simp [Part.OK]⟩
 
 example : (exEnv 10).wfb = true := by decide
 /-- negated cds whose only satisfying gene sits exactly `cutoff` away: true; one base closer: false -/
